@@ -57,17 +57,22 @@ Lemma unknown_error_type_not_reported :
   err_handle err_type3 = Ok None.
 Proof. vm_compute. repeat split; reflexivity. Qed.
 
-(** FINDING C14-gateway-answers-scmp-error: the SNAP gateway's reply to an inbound datagram
-    that fails its check is [ParameterProblem(code, pointer, datagram)] whatever the datagram
-    is; for a datagram that itself is an SCMP error (DestinationUnreachable here) that is an
-    SCMP error answered with an SCMP error *)
+(** FIXED C14-gateway-answers-scmp-error: the SNAP gateway's reply to an inbound datagram that
+    fails its check is [ParameterProblem(code, pointer, datagram)]; before the repair also for
+    a datagram that itself is an SCMP error.  Now a parseable SCMP error (DestinationUnreachable,
+    unassigned type 3) is recognised and nothing is sent; an echo request failing the check is
+    still answered, and so is a datagram too damaged to parse *)
 Definition err_du : bytes := mk_pkt 202 (mk_scmp 1 3 [0; 0; 0; 0; 1; 2; 3; 4] 0).
-Lemma gateway_answers_scmp_error :
+Lemma gateway_ignores_scmp_errors :
   spec_is_scmp_error err_du = true /\
-  match encode_err (mkE 4 33 32 0 0 err_du) 36 with
-  | Ok b => is_prefix (skipn 8 b) err_du && (nth 0 b 0 =? 4)
+  gateway_suppresses false err_du = Ok true /\
+  gateway_suppresses false err_type3 = Ok true /\
+  gateway_suppresses false echo_req_good = Ok false /\
+  gateway_suppresses true err_du = Ok false /\
+  match encode_err (mkE 4 33 32 0 0 echo_req_good) 36 with
+  | Ok b => is_prefix (skipn 8 b) echo_req_good && (nth 0 b 0 =? 4)
   | _ => false end = true.
-Proof. vm_compute. split; reflexivity. Qed.
+Proof. vm_compute. repeat split; reflexivity. Qed.
 
 (** FIXED C14-unknown-error-type-answered (pocketscion): after the repair no reply target is
     computed for an SCMP error of unassigned type; an echo request still gets one *)
